@@ -53,7 +53,8 @@ def exact_row(fn, rng, full_projection=True, max_paths=20_000_000):
             raise
         except Exception as ex:  # a crash of the move on a reachable state
             tb = traceback.extract_tb(ex.__traceback__)
-            where = "%s:%s" % (tb[-1].filename.split("/")[-1], tb[-1].name) if tb else "?"
+            inpkg = [f for f in tb if "/phyclone/" in f.filename] or list(tb)
+            where = "%s:%s" % (inpkg[-1].filename.split("/")[-1], inpkg[-1].name) if inpkg else "?"
             return ("exception", "%s@%s: %s" % (type(ex).__name__, where, ex))
         try:
             k, _ = absstate.project(t, full=full_projection)
